@@ -96,6 +96,11 @@ func (s *rrSegFetcher) doCheck() {
 		if state.complete {
 			// lazy remove completed streams
 			s.remove(state)
+			if state == first {
+				// the stream that marks the full circle is gone: start a new circle,
+				// otherwise this loop never ends while the other streams have nothing to send
+				first = nil
+			}
 			continue
 		}
 
